@@ -175,6 +175,51 @@ fn single_edit(seed: u64, idx: u64, rep: &mut Report) {
     rep.count("single_edit_cases", 1);
 }
 
+/// The source begins with the complete basis and goes on with material that reuses basis blocks (`cat f f`,
+/// basis + noise + some old blocks): everything after the first copy of the basis still has to be matched.
+fn basis_then_reuse(seed: u64, idx: u64, rep: &mut Report) {
+    let mut rng = Rng::derive(seed, 163, idx);
+    rep.evaluations += 1;
+    let bs = *rng.pick(&CLI_BS);
+    let nb = rng.range(1, if bs >= 16384 { 4 } else { 9 });
+    let mut basis = rng.bytes(nb * bs);
+    for i in 0..nb {
+        basis[i * bs..i * bs + 4].copy_from_slice(&(0xB000_0000u32 + i as u32).to_le_bytes());
+    }
+    if rng.chance(1, 4) {
+        let t = rng.range(1, bs - 1);
+        basis.extend_from_slice(&rng.bytes(t)); // ragged tail: the basis is not a whole number of blocks
+    }
+    let mut source = basis.clone();
+    let mut want_literal = 0u64;
+    for _ in 0..rng.range(1, 4) {
+        match rng.below(3) {
+            0 => source.extend_from_slice(&basis[..nb * bs]),
+            1 => {
+                let n = rng.range(1, 300);
+                source.extend_from_slice(&rng.bytes(n));
+                want_literal += n as u64;
+            }
+            _ => {
+                let k = rng.range(0, nb - 1);
+                source.extend_from_slice(&basis[k * bs..(k + 1) * bs]);
+            }
+        }
+    }
+    let ctx = json!({"seed": seed, "case": idx, "family": "basis-then-reuse", "bs": bs, "blocks": nb, "basis_len": basis.len(), "source_len": source.len()});
+    // textbook greedy on this input: the ragged tail (if any) and the noise runs are literal, whole basis blocks are copies;
+    // noise can shift alignment but every appended block is still found by sliding
+    let _ = want_literal;
+    let bound = greedy_literals(&basis, &source, bs).0;
+    for (eng, l) in lit_of(&basis, &source, bs, &ctx, rep) {
+        if l > bound {
+            rep.violation(&format!("C16|{eng}|more-literals-than-greedy|basis-then-reuse"), json!({"ctx": ctx, "literal": l, "bound": bound}));
+        }
+    }
+    rep.distinct.insert(format!("basis-then-reuse|bs{bs}|nb{}", nb.min(4)));
+    rep.count("basis_then_reuse_cases", 1);
+}
+
 /// The single-edit bound on LARGE files (4-9 MiB of distinct blocks, a few bytes inserted, deleted or replaced near
 /// the front or somewhere inside): an engine that splits the work into segments must not lose a block per segment.
 fn single_edit_large(seed: u64, idx: u64, rep: &mut Report) {
@@ -227,6 +272,7 @@ pub fn run(seed: u64, thorough: bool, cases: Option<u64>) -> Report {
         rep.merge(par_cases(n / 4, |i, r| identical(seed, i, r)));
         rep.merge(par_cases(n / 3, |i, r| single_edit(seed, i, r)));
         rep.merge(par_cases(if thorough { 60 } else { 6 }, |i, r| single_edit_large(seed, i, r)));
+        rep.merge(par_cases(n / 3, |i, r| basis_then_reuse(seed, i, r)));
     }
     rep
 }
